@@ -17,6 +17,15 @@ class Ctx:
 
 
 def main():
+    # a tree under test may make results grow without bound: the harness must fail with a MemoryError (reported as a
+    # violation below) rather than be chosen by the kernel's OOM killer and die without a verdict
+    try:
+        import resource
+        soft, hard = resource.getrlimit(resource.RLIMIT_DATA)
+        lim = 24 * 1024 ** 3
+        resource.setrlimit(resource.RLIMIT_DATA, (lim if hard == resource.RLIM_INFINITY else min(lim, hard), hard))
+    except Exception:
+        pass
     ap = argparse.ArgumentParser()
     ap.add_argument("prop")
     ap.add_argument("--tier", default=os.environ.get("VERIF_TIER", "quick"))
